@@ -83,9 +83,12 @@ func HandleAuditAnnouncement(blockchain blockchain.Blockchain, stream ce144Strea
 	if err != nil {
 		return fmt.Errorf("failed to read announcement message: %w", err)
 	}
-	headerHash, tranche, announcement, _, err := parseMsg1(msg1)
+	headerHash, tranche, announcement, consumed, err := parseMsg1(msg1)
 	if err != nil {
 		return fmt.Errorf("failed to parse announcement: %w", err)
+	}
+	if consumed != len(msg1) {
+		return fmt.Errorf("%d trailing bytes after the announcement", len(msg1)-consumed)
 	}
 
 	msg2, err := stream.ReadMessage()
@@ -281,6 +284,9 @@ func parseMsg2(data []byte, tranche uint8, workReportsCount int) (*CE144Evidence
 			BandersnatchSig: bsSig,
 			NoShows:         noShows,
 		}
+	}
+	if offset != len(data) {
+		return nil, fmt.Errorf("%d trailing bytes after the evidence", len(data)-offset)
 	}
 	return &CE144Evidence{IsFirstTranche: false, SubsequentEvidence: subEvidence}, nil
 }
